@@ -135,8 +135,22 @@ class PlainMember:
         return x.flip(-1) if torch.is_tensor(x) else x
 
 
-def build(spec):
+def build(spec, factory=False):
+    """factory=True: the same transform described the way configuration files describe it - leaves as {"kind": <ClassName or
+    snake_case name>, **kwargs} dicts, compositions as plain lists - and resolved by kappadata.factory.object_to_transform"""
     k = spec["k"]
+    if factory:
+        from kappadata.factory import object_to_transform
+        # one description object per spec object: building twice from the same spec hands the very same dicts / lists to the factory
+        # again, as a configuration that is used for two pipelines does (the factory must not consume or alter what it is given)
+        hit = _DESC_CACHE.get(id(spec))
+        if hit is None or hit[0] is not spec:
+            if len(_DESC_CACHE) > 256:
+                _DESC_CACHE.clear()
+            hit = (spec, _factory_description(spec))
+            _DESC_CACHE[id(spec)] = hit
+        if hit[1] is not None:
+            return object_to_transform(_materialize(hit[1]))
     if k == "plain":
         return PlainMember()
     if k == "user_hook":
@@ -159,6 +173,47 @@ def build(spec):
         return getattr(importlib.import_module(mod), spec["name"])(**kw)
     args = {a: (tuple(v) if isinstance(v, list) and a in ("scale", "sigma", "fill_color") else v) for a, v in spec.get("a", {}).items()}
     return leaf_class(k)(**args)
+
+
+_DESC_CACHE = {}
+
+
+def _snake(name):
+    if name.startswith("KD") and len(name) > 2:
+        return "kd_" + _snake(name[2:])
+    out = name[0].lower()
+    for ch in name[1:]:
+        out += ("_" + ch.lower()) if ch.isupper() else ch
+    return out
+
+
+def _factory_description(spec):
+    """dict / list description of a spec, or None where the factory has no notation for it (harness members, wrappers that take a
+    transform object, classes outside the two transform namespaces)"""
+    import kappadata.common.transforms as CT
+    import kappadata.transforms as T
+    k = spec["k"]
+    if k == "compose":
+        members = []
+        for m in spec["m"]:
+            d = _factory_description(m)
+            members.append(("object", m) if d is None else d)
+        return members
+    if k in LEAVES and k not in _MODULES and (hasattr(T, k) or hasattr(CT, k)):
+        args = {a: (tuple(v) if isinstance(v, list) and a in ("scale", "sigma", "fill_color") else v) for a, v in spec.get("a", {}).items()}
+        # both spellings the factory accepts: the class name and its lower-case form (underscores are ignored)
+        kind = k if len(k) % 2 else _snake(k)
+        return dict(kind=kind, **args)
+    return None
+
+
+def _materialize(desc):
+    """members the factory has no notation for are fresh objects on every build; the kind-dicts are the very same objects every time"""
+    if isinstance(desc, list):
+        return [_materialize(d) for d in desc]
+    if isinstance(desc, tuple) and desc[0] == "object":
+        return build(desc[1])
+    return desc
 
 
 def family(spec):
